@@ -517,6 +517,9 @@ class GateMemoizer:
         def make_context_entry(arg):
             if isinstance(arg, str):
                 return context.get(arg)
+            elif isinstance(arg, (list, tuple)):
+                # Names also occur inside arguments, e.g. q[i]
+                return tuple(make_context_entry(a) for a in arg)
             else:
                 return None
 
